@@ -36,13 +36,14 @@ M = {
     "M22_reader_unowned": ("src/tableslice.c", "\tt->owned = 1;\n\tt->table_metadata", "\tt->owned = 0;\n\tt->table_metadata", ["C12", "C05"], [], False),
     "M23_printf": ("src/fileheader.c", "\tif (v != id)\n\t{\n\t\treturn SBDF_ERROR_UNEXPECTED_SECTION_ID;", "\tif (v != id)\n\t{\n\t\tfprintf(stderr, \"unexpected section %d\\n\", v);\n\t\treturn SBDF_ERROR_UNEXPECTED_SECTION_ID;", ["C20"], [], False),
     "M24_static_scratch": ("src/internals.c", "int sbdf_write_int8(FILE* f, int v)\n{\n\tunsigned char c = v;", "int sbdf_write_int8(FILE* f, int v)\n{\n\tstatic unsigned char c;\n\tc = v;", ["C18"], [], False),
-    "M25_contmask": ("src/sbdfstring.c", "uch += ch & 0x3f;", "uch += ch & 0x7f;", ["C19"], [], False),
+    # equivalent mutant: a continuation byte has bit 6 clear, a non-continuation byte is substituted anyway
+    "H06_contmask_equivalent": ("src/sbdfstring.c", "uch += ch & 0x3f;", "uch += ch & 0x7f;", [], ["C19"], True),
     "M26_sizeonly": ("src/sbdfstring.c", "\t\t\tif (out)\n\t\t\t{\n\t\t\t\t*out++ = REPLACEMENT_CHAR;\n\t\t\t}\n\n\t\t\t++result;\n\t\t}\n\t}\n\n\tif (out)\n\t{\n\t\t*out++ = 0;\n\t}\n\n\t++result;\n\n\treturn result;\n}\n\nint sbdf_convert_iso88591_to_utf8", "\t\t\tif (out)\n\t\t\t{\n\t\t\t\t*out++ = REPLACEMENT_CHAR;\n\t\t\t\t++result;\n\t\t\t}\n\t\t}\n\t}\n\n\tif (out)\n\t{\n\t\t*out++ = 0;\n\t}\n\n\t++result;\n\n\treturn result;\n}\n\nint sbdf_convert_iso88591_to_utf8", ["C19"], [], False),
     "M27_skip_rle_rows": ("src/valuearray.c", "\t\t\t\tint ignored_row_cnt;\n\t\t\t\terr = sbdf_read_int32(file, &ignored_row_cnt);\n\t\t\t\tif (!err)\n\t\t\t\t{\n\t\t\t\t\terr = sbdf_obj_skip_arr(file, byte_vt);\n\t\t\t\t}", "\t\t\t\terr = sbdf_obj_skip_arr(file, byte_vt);", ["C07"], [], False),
     "M28_dflt_dropped": ("src/tablemetadata.c", "\t\t\t\telse if (!sbdf_obj_eq(array[i - 1].meta->default_value, array[i].meta->default_value))", "\t\t\t\telse if (0 && !sbdf_obj_eq(array[i - 1].meta->default_value, array[i].meta->default_value))", ["C01"], [], False),
     # harmless rewrites: no check may report
     "H01_growth_x2": ("src/internals.c", "cap = 1 + cap * 3 / 2;", "cap = 1 + cap * 2;", [], ["C11", "C14", "C01", "C05"], True),
-    "H02_obj401_io": ("src/object.c", "\t\t\t\t\t\treturn SBDF_ERROR_OUT_OF_MEMORY;\n\t\t\t\t\t}\n\t\t\t\t}\n\t\t\t}\n\t\t}", "\t\t\t\t\t\treturn SBDF_ERROR_IO;\n\t\t\t\t\t}\n\t\t\t\t}\n\t\t\t}\n\t\t}", [], ["C13", "C01", "C03"], True),
+    "H02_obj401_io": ("src/object.c", "if (fwrite(*data, 1, length, f) != length)\n\t\t\t\t\t\t{\n\t\t\t\t\t\t\treturn SBDF_ERROR_OUT_OF_MEMORY;", "if (fwrite(*data, 1, length, f) != length)\n\t\t\t\t\t\t{\n\t\t\t\t\t\t\treturn SBDF_ERROR_IO;", [], ["C13", "C01", "C03"], True),
     "H03_memmove": ("src/sbdfstring.c", "\t\t\tmemcpy(ptr, str, length);", "\t\t\tmemmove(ptr, str, length);", [], ["C20", "C18", "C15"], True),
     "H04_const_table": ("src/internals.c", "int sbdf_ti_is_arr(int id)\n{\n\tswitch (id)\n\t{\n\tcase SBDF_STRINGTYPEID:\n\tcase SBDF_BINARYTYPEID:\n\t\treturn 1;\n\t}\n\n\treturn 0;\n}", "static const unsigned char arr_ids[2] = { SBDF_STRINGTYPEID, SBDF_BINARYTYPEID };\n\nint sbdf_ti_is_arr(int id)\n{\n\treturn id == arr_ids[0] || id == arr_ids[1];\n}", [], ["C18", "C20", "C03", "C02"], True),
     "H05_malloc_memset": ("src/columnslice.c", "\tt = calloc(1, sizeof(sbdf_columnslice));\n\tif (!t)\n\t{\n\t\treturn SBDF_ERROR_OUT_OF_MEMORY;\n\t}\n\n\tt->values = values;", "\tt = malloc(sizeof(sbdf_columnslice));\n\tif (!t)\n\t{\n\t\treturn SBDF_ERROR_OUT_OF_MEMORY;\n\t}\n\tmemset(t, 0, sizeof(sbdf_columnslice));\n\n\tt->values = values;", [], ["C14", "C11", "C12", "C20"], True),
